@@ -16,13 +16,14 @@ no seq-bearing message is handed over before the first NBIRTH; SUB, NDEATH and D
 no sequence number. -/
 theorem C02_seq_gap_free (cd : Nat) (acts : List Act) (s : St) (tr : List Obs)
     (h : runActs (init cd) acts = some (s, tr)) : seqOk none tr = true := by
-  sorry
+  exact (runActs_good acts _ none s tr (inv_init cd) h).1
 
 /-- the counter in the state is the number the last seq-bearing hand-over carried (0 right after
 an NBIRTH), always a `u8` -/
 theorem C02_seq_is_u8 (cd : Nat) (acts : List Act) (s : St) (tr : List Obs)
     (h : runActs (init cd) acts = some (s, tr)) : s.seq < 256 ∧ s.bdseq < 256 := by
-  sorry
+  obtain ⟨_, hI⟩ := (runActs_good acts _ none s tr (inv_init cd) h).2
+  exact ⟨hI.1, hI.2.1⟩
 
 /-! ### non-vacuity: a concrete execution with two publishers and a wrap-free prefix -/
 example :
